@@ -67,6 +67,10 @@ def cases(tier, seed):
             out.append({"slopes": list(sv)})
     for sv in itertools.product((-1, 1), repeat=4 if tier == "quick" else 5):
         out.append({"slopes": list(sv)})
+    # three pockets on one side of the pinch (8 rows, alternating unit slopes; both orientations): two pocket-closing rows are inserted
+    # before the third pocket is reached, so every row index kept across an insertion matters
+    out.append({"slopes": [-1, 1, -1, 1, -1, 1, -1]})
+    out.append({"slopes": [1, -1, 1, -1, 1, -1, 1]})
     return out
 
 
@@ -74,7 +78,7 @@ def family(want):
     def mk(ctx, case):
         return body(ctx, case, want)
     return Family(name="gcc_shapes", cases=cases, body=mk, functions=FUNCS, files=FILES,
-                  bounds="grand composite curves of 2-4 rows with every slope-sign vector in {-1,0,+1} plus all +/-1 vectors of 5 rows (thorough: complete to 5 rows, +/-1 to 6), "
+                  bounds="grand composite curves of 2-4 rows with every slope-sign vector in {-1,0,+1} plus all +/-1 vectors of 5 rows (thorough: complete to 5 rows, +/-1 to 6) and the two alternating +/-1 vectors of 8 rows (three pockets on one side), "
                          "gaps in [0.01,100] K, offset and top temperature symbolic, min H = 0 with solver-placed pinch(es); one isothermal hot utility above and one cold utility below the range",
                   assumptions=["floats modelled as exact reals", "per-interval GCC slopes concrete (unit magnitude); distinct enthalpy values >= 1e-3 apart",
                                "utilities: one default-like level per side (ladders are covered by the pipeline families)"],
